@@ -118,14 +118,7 @@ func runMergeRules(c *Ctx) {
 			switch staticCallee(call) {
 			case r.mergeTrip, r.mergeVeh:
 				acc := call.Call.Args[0]
-				var m ssa.Value
-				if lk, ok := acc.(*ssa.Lookup); ok {
-					m = lk.X
-				} else if ex, ok := acc.(*ssa.Extract); ok {
-					if lk, ok := ex.Tuple.(*ssa.Lookup); ok {
-						m = lk.X
-					}
-				}
+				m, key := resolveAccLookup(c, acc)
 				if m == nil {
 					c.Violated("MERGE", r.fname, "merge target of "+shortName(staticCallee(call)), p.ipos(call), "merge target is not the accumulator looked up by the entity's id")
 					continue
@@ -136,11 +129,10 @@ func runMergeRules(c *Ctx) {
 					vehMap = m
 				}
 				// the key is the id of the merged value: m[x.ID] with merged value *x (or x for struct elements)
-				lk := lookupOf(acc)
 				merged := call.Call.Args[1]
 				okKey := false
-				if lk != nil {
-					kc := canon(lk.Index)
+				if key != nil {
+					kc := canon(key)
 					mc := canon(merged)
 					// key "*(X.ID)" (or "*(*(X.ID))" for vehicles) and merged "*(X)"
 					for _, pat := range []string{"*(%s.ID)", "*(*(%s.ID))"} {
@@ -194,34 +186,36 @@ func runMergeRules(c *Ctx) {
 	c.Check(alertMerged, "MERGE", r.fname, "every alert-referenced trip is merged", p.pos(fn.Pos()), "each element of the alert's trip list is merged on every trip around the inner loop", "a trip referenced from an alert is not merged into the trips on every path")
 
 	// --- M3: accumulators are created only when absent, as zero values, under the same key
-	for _, b := range fn.Blocks {
-		for _, in := range b.Instrs {
-			mu, ok := in.(*ssa.MapUpdate)
-			if !ok || (mu.Map != tripsMap && mu.Map != vehMap) {
-				continue
-			}
-			okGuard := false
-			for _, ce := range dominatingConds(b) {
-				cond, val := ce.Cond, ce.Val
-				if u, isNot := cond.(*ssa.UnOp); isNot && u.Op == token.NOT {
-					cond, val = u.X, !val
+	for _, g := range c.regionOf(fn) {
+		for _, b := range g.Blocks {
+			for _, in := range b.Instrs {
+				mu, ok := in.(*ssa.MapUpdate)
+				if !ok || !(sameMapAs(c, mu.Map, tripsMap, 0) || sameMapAs(c, mu.Map, vehMap, 0)) {
+					continue
 				}
-				if ex, isEx := cond.(*ssa.Extract); isEx && ex.Index == 1 && !val {
-					if lk, isLk := ex.Tuple.(*ssa.Lookup); isLk && lk.X == mu.Map && canon(lk.Index) == canon(mu.Key) {
-						okGuard = true
+				okGuard := false
+				for _, ce := range dominatingConds(b) {
+					cond, val := ce.Cond, ce.Val
+					if u, isNot := cond.(*ssa.UnOp); isNot && u.Op == token.NOT {
+						cond, val = u.X, !val
+					}
+					if ex, isEx := cond.(*ssa.Extract); isEx && ex.Index == 1 && !val {
+						if lk, isLk := ex.Tuple.(*ssa.Lookup); isLk && lk.X == mu.Map && canon(lk.Index) == canon(mu.Key) {
+							okGuard = true
+						}
 					}
 				}
-			}
-			fresh := false
-			if a, isAlloc := mu.Value.(*ssa.Alloc); isAlloc {
-				fresh = true
-				for _, ref := range *a.Referrers() {
-					if _, isFA := ref.(*ssa.FieldAddr); isFA {
-						fresh = false // pre-filled accumulator
+				fresh := false
+				if a, isAlloc := mu.Value.(*ssa.Alloc); isAlloc {
+					fresh = true
+					for _, ref := range *a.Referrers() {
+						if _, isFA := ref.(*ssa.FieldAddr); isFA {
+							fresh = false // pre-filled accumulator
+						}
 					}
 				}
+				c.Check(okGuard && fresh, "MERGE", r.fname, "accumulator "+shortType(mu.Map.Type())+" created only when absent", p.ipos(mu), "zero accumulator stored on the !ok edge of a lookup under the same key (never reset)", "an accumulator entry is overwritten or pre-filled: a later mention can erase what an earlier entity contributed")
 			}
-			c.Check(okGuard && fresh, "MERGE", r.fname, "accumulator "+mapName(mu.Map)+" created only when absent", p.ipos(mu), "zero accumulator stored on the !ok edge of a lookup under the same key (never reset)", "an accumulator entry is overwritten or pre-filled: a later mention can erase what an earlier entity contributed")
 		}
 	}
 
@@ -580,12 +574,14 @@ func runLinkRules(c *Ctx) {
 	for _, b := range fn.Blocks {
 		for _, in := range b.Instrs {
 			if call, ok := in.(*ssa.Call); ok && len(call.Call.Args) > 0 {
-				if lk := lookupOf(call.Call.Args[0]); lk != nil {
-					switch staticCallee(call) {
-					case r.mergeTrip:
-						tripsMap = lk.X
-					case r.mergeVeh:
-						vehMap = lk.X
+				switch staticCallee(call) {
+				case r.mergeTrip:
+					if m, _ := resolveAccLookup(c, call.Call.Args[0]); m != nil {
+						tripsMap = m
+					}
+				case r.mergeVeh:
+					if m, _ := resolveAccLookup(c, call.Call.Args[0]); m != nil {
+						vehMap = m
 					}
 				}
 			}
@@ -877,4 +873,69 @@ func extractTableNoLoops(f *ssa.Function) (*dtable, error) {
 		return t, nil
 	}
 	return extractTableCut(f)
+}
+
+// resolveAccLookup: acc is m[k] -- directly, or as the result of a get-or-create helper all of whose returns are a
+// lookup in its map parameter under its key parameter; returns the map and key as seen at the caller.
+func resolveAccLookup(c *Ctx, acc ssa.Value) (m, key ssa.Value) {
+	if lk := lookupOf(acc); lk != nil {
+		return lk.X, lk.Index
+	}
+	call, ok := acc.(*ssa.Call)
+	if !ok || call.Call.IsInvoke() {
+		return nil, nil
+	}
+	cal := call.Call.StaticCallee()
+	if cal == nil || !c.P.isModuleFn(cal) || len(cal.Blocks) == 0 {
+		return nil, nil
+	}
+	var mp, kp *ssa.Parameter
+	n := 0
+	for _, b := range cal.Blocks {
+		ret, ok := b.Instrs[len(b.Instrs)-1].(*ssa.Return)
+		if !ok {
+			continue
+		}
+		n++
+		if len(ret.Results) != 1 {
+			return nil, nil
+		}
+		lk := lookupOf(ret.Results[0])
+		if lk == nil {
+			return nil, nil
+		}
+		m1, ok1 := lk.X.(*ssa.Parameter)
+		k1, ok2 := lk.Index.(*ssa.Parameter)
+		if !ok1 || !ok2 || (mp != nil && (mp != m1 || kp != k1)) {
+			return nil, nil
+		}
+		mp, kp = m1, k1
+	}
+	if n == 0 || mp == nil {
+		return nil, nil
+	}
+	return call.Call.Args[paramIndex(mp)], call.Call.Args[paramIndex(kp)]
+}
+
+// sameMapAs: v is the map target, or a helper's parameter that every call site binds to it.
+func sameMapAs(c *Ctx, v, target ssa.Value, d int) bool {
+	if v == target {
+		return true
+	}
+	prm, ok := v.(*ssa.Parameter)
+	if !ok || d > 3 || target == nil {
+		return false
+	}
+	callers := c.P.Callers(prm.Parent())
+	if len(callers) == 0 {
+		return false
+	}
+	idx := paramIndex(prm)
+	for _, e := range callers {
+		args := e.Site.Common().Args
+		if idx < 0 || idx >= len(args) || !sameMapAs(c, args[idx], target, d+1) {
+			return false
+		}
+	}
+	return true
 }
